@@ -124,3 +124,11 @@ CLAIMS["C06"] = (
     "Reference table of Python->sympy meanings is the trusted base (one reason per non-obvious entry); unknown keys are INFO, never alarms. Name resolution through runtime introspection is not analysed.",
     "DESIGN.md section 4 C06",
 )
+CLAIMS["C12"] = (
+    "order-provenance check of the symbol-defining loop, call-site/signature agreement for all 21 fn_to_sympy calls (resolved over the whole package), lookup-totality and order check of the equation list, typed structure check of the lambdify contract using the Model's field and return annotations, and subset check of the shipped rate-law library against the kinds extracted from the translator",
+    "Decides for all models and declaration orders: (Y1) symbols consumed by later iterations are defined while iterating the cached topological order, reactions included; (Y2) every fn_to_sympy call matches its signature (catches the misplaced parenthesis); (Y3) one equation per variable in declaration order with a total lookup; "
+    "(Y4) the Jacobian differentiates by the variable symbols in that order; (Y5) the lambdified Jacobian is called with (t, x, values) where names and values come from the same dict[str, float] mapping; (Y6) conversion failure in the simulator warns and falls back; (Y7) all 20 shipped rate laws lie in the translator's handled subset; (Y8) untranslatable pieces raise. "
+    "Numerical agreement of symbolic and numeric right-hand sides / trajectories is not decided.",
+    "Builds on C06 for the translator; parameters defined by initial assignments are outside the symbolic export (conversion raises).",
+    "DESIGN.md section 4 C12",
+)
